@@ -5,6 +5,7 @@ package cb
 
 import (
 	"fmt"
+	"math/big"
 	"net/http"
 	"net/http/httptest"
 	"strings"
@@ -121,6 +122,46 @@ func (s *sys) state() string {
 
 type verdict struct{ key, detail string }
 
+// mulGT reports a*b > c*d without overflow (request counts times nanoseconds exceed 64 bits for long recoveries).
+func mulGT(a, b, c, d int64) bool {
+	l := new(big.Int).Mul(big.NewInt(a), big.NewInt(b))
+	r := new(big.Int).Mul(big.NewInt(c), big.NewInt(d))
+	return l.Cmp(r) > 0
+}
+
+// longRamp: one long run instead of a search - a recovery period of days and tens of thousands of requests at
+// mid-recovery; the ramp oracle (exact integers) is evaluated on every single request.
+func longRamp(rep *lib.Report) {
+	for _, cfg := range []config{
+		{fallback: time.Second, recovery: 7 * 24 * time.Hour, checkPeriod: time.Millisecond, cond: "NetworkErrorRatio() > 0.5", badCode: 502},
+		{fallback: time.Second, recovery: 24 * time.Hour, checkPeriod: time.Millisecond, cond: "NetworkErrorRatio() > 0.5", badCode: 502},
+	} {
+		s := newSys(cfg)
+		s.request(cfg.badCode, 0)
+		clock.Advance(cfg.fallback + time.Millisecond)
+		s.request(200, 0)
+		n := 60000
+		if cfg.recovery < 48*time.Hour {
+			n = 300000
+		}
+		for _, at := range []time.Duration{cfg.recovery / 4, cfg.recovery / 4} { // at a quarter, then at half of the recovery
+			clock.Advance(at)
+			for k := 0; k < n/2; k++ {
+				obs, vs := s.request(200, 0)
+				rep.Evaluations++
+				for _, v := range vs {
+					if strings.HasPrefix(v.key, "C12:") {
+						rep.Violate(v.key+":long-run", fmt.Sprintf("recovery %v, request %d of a long burst: %s [%s]", cfg.recovery, k+1, v.detail, obs),
+							map[string]any{"engine": "xstate", "part": "cb", "mode": "long-ramp", "replayable": false})
+						return
+					}
+				}
+			}
+		}
+		rep.Count("long_ramp_runs")
+	}
+}
+
 type noEffect struct{}
 
 func (noEffect) Exec() error { return nil }
@@ -201,12 +242,12 @@ func (s *sys) request(code int, latency time.Duration) (string, []verdict) {
 		if E <= R {
 			if served {
 				s.passed++
-				if int64(s.passed)*2*R > int64(s.passed+s.refused)*E {
+				if mulGT(int64(s.passed)*2, R, int64(s.passed+s.refused), E) {
 					vs = append(vs, verdict{"C12:ramp-exceeded",
 						fmt.Sprintf("after this pass %d of %d requests since recovery began were passed at elapsed %v of %v (ramp %.4f): %s", s.passed, s.passed+s.refused, time.Duration(E), s.cfg.recovery, 0.5*float64(E)/float64(R), obs)})
 				}
 			} else {
-				if int64(s.passed+1)*2*R < int64(s.passed+s.refused+1)*E {
+				if mulGT(int64(s.passed+s.refused+1), E, int64(s.passed+1)*2, R) {
 					vs = append(vs, verdict{"C12:refused-below-ramp",
 						fmt.Sprintf("refused although passing would give %d/%d < ramp %.4f at elapsed %v of %v: %s", s.passed+1, s.passed+s.refused+1, 0.5*float64(E)/float64(R), time.Duration(E), s.cfg.recovery, obs)})
 				}
@@ -537,6 +578,10 @@ func Run(tier string, sh lib.Shard, rep *lib.Report) {
 				}
 			}
 		}
+	}
+	if prop == "C12" && sh.I == 0 {
+		longRamp(rep)
+		rep.Require("long_ramp_runs")
 	}
 	if prop == "C05" {
 		// durations are quantified over ALL values: sub-millisecond recovery / fallback periods and requests that
